@@ -76,6 +76,46 @@ theorem pairsFrom_spec (e : Endian) (f : Bytes) : ∀ (n pos : Nat) (t : List (N
             rw [show pos + 8 * (i + 1) = pos + 8 + 8 * i by omega]
             exact this
 
+theorem agreeOff_iff (K : Content) : ∀ (l₁ l₂ : Bytes) (i : Nat),
+    agreeOff K i l₁ l₂ = true ↔
+      l₁.length = l₂.length ∧ ∀ j, j < l₂.length → ¬ K.covered (i + j) → l₁[j]? = l₂[j]? := by
+  intro l₁
+  induction l₁ with
+  | nil =>
+    intro l₂ i
+    cases l₂ with
+    | nil => simp [agreeOff]
+    | cons y ys => simp [agreeOff]
+  | cons x xs ih =>
+    intro l₂ i
+    cases l₂ with
+    | nil => simp [agreeOff]
+    | cons y ys =>
+      simp only [agreeOff, Bool.and_eq_true, Bool.or_eq_true, decide_eq_true_eq, beq_iff_eq, ih ys (i + 1),
+        List.length_cons]
+      constructor
+      · rintro ⟨h0, hl, hr⟩
+        refine ⟨by omega, ?_⟩
+        intro j hj hc
+        cases j with
+        | zero =>
+          rcases h0 with h0 | h0
+          · exact absurd h0 (by simpa using hc)
+          · simp [h0]
+        | succ j =>
+          simp only [List.getElem?_cons_succ]
+          exact hr j (by omega) (by rw [show i + 1 + j = i + (j + 1) by omega]; exact hc)
+      · rintro ⟨hl, hr⟩
+        refine ⟨?_, by omega, ?_⟩
+        · by_cases hc : K.covered i
+          · exact Or.inl hc
+          · have := hr 0 (by omega) (by simpa using hc)
+            simp at this
+            exact Or.inr this
+        · intro j hj hc
+          have := hr (j + 1) (by omega) (by rw [show i + (j + 1) = i + 1 + j by omega]; exact hc)
+          simpa using this
+
 /-- The names the walk assigns to the table entries. -/
 def walkNames (K : Content) : List Nat → List (Nat × Nat) → List (Nat × Nat × Bytes)
   | _, [] => []
@@ -211,11 +251,11 @@ theorem conformsCheck_sound (enc : Bytes → Option Bytes) (e : Endian) (f : Byt
     fits := h5
     dataEq := by
       intro i hi hc
-      have := List.all_eq_true.mp h6 i (List.mem_range.mpr hi)
-      simp only [Bool.or_eq_true, decide_eq_true_eq, beq_iff_eq] at this
-      rcases this with h | h
-      · exact absurd h hc
-      · exact h
+      unfold chkData at h6
+      obtain ⟨_, hall⟩ := (agreeOff_iff K _ _ 0).mp h6
+      have := hall i hi (by simpa using hc)
+      rw [List.getElem?_take, if_pos hi, List.getElem?_drop] at this
+      exact this
     ptrTable := ⟨t, List.isPerm_iff.mp h7, hti⟩
     ptrCells := by
       intro p hp
@@ -329,12 +369,13 @@ theorem conformsCheck_complete (enc : Bytes → Option Bytes) (e : Endian) (f : 
   obtain ⟨lt, hltl, hlti, hfilter⟩ := h.lblTable
   have c6 : chkData f K = true := by
     unfold chkData
-    rw [List.all_eq_true]
-    intro i hi
-    by_cases hc : K.covered i
-    · simp [hc]
-    · have := h.dataEq i (List.mem_range.mp hi) hc
-      simp [hc, this]
+    rw [agreeOff_iff]
+    have hfit := h.fits
+    unfold Content.textStart at hfit
+    refine ⟨by simp; omega, ?_⟩
+    intro j hj hc
+    rw [List.getElem?_take, if_pos hj, List.getElem?_drop]
+    exact h.dataEq j hj (by simpa using hc)
   have c7 : chkPtrTable e f K = true := by
     unfold chkPtrTable
     rw [← hperm.length_eq, wordsFrom_complete e f t _ hti]
